@@ -67,6 +67,10 @@ class Monitor:
         self._alpha.append(["line", [0, 255, 3, 0, 2, self.version]])
         self._alpha.append(["line", [0, 255, 0, 0, 18, self.version]])
         self._alpha.append(["line", [0, 255, 3, 0, 9, "log"]])
+        # the gateway reports other 2.x releases: the rules in force change, the episodes do not
+        for r in cfg.get("switch", []):
+            self._alpha.append(["line", [0, 255, 3, 0, 2, r]])
+            self._alpha.append(["line", [0, 255, 0, 0, 18, r]])
         # the application itself asks a node to present itself (a send, parked if that node sleeps)
         if cfg.get("app"):
             for n in self.nodes:
@@ -155,6 +159,8 @@ class Monitor:
                 self.sleeping.discard(n)
             if is_wake:
                 self.sleeping.add(n)
+            if n == 0 and ((f[2] == 3 and f[4] == 2) or (f[2] == 0 and f[1] == 255)) and R.spec_protocol(f[5]) is not None:
+                self.version = R.spec_protocol(f[5])
         return viols
 
     def key(self):
@@ -171,10 +177,12 @@ def run(ctx: core.Ctx) -> core.Report:
         cfgs = [{"version": v, "nodes": [1, 2]} for v in R.VERSIONS]
         cfgs.append({"version": "2.1", "nodes": [1], "persistence": True})
         cfgs.append({"version": "2.2", "nodes": [1], "app": True})
+        cfgs.append({"version": "2.0", "nodes": [1], "switch": ["2.1.1", "2.2.0", "2.0.0"]})
     else:
         cfgs = [{"version": v, "nodes": [1, 2, 3] if v in ("1.5", "2.0", "2.2") else [1, 2]} for v in R.VERSIONS]
         cfgs += [{"version": v, "nodes": [1, 2], "persistence": True} for v in ("1.5", "2.0", "2.2")]
         cfgs += [{"version": v, "nodes": [1, 2], "app": True} for v in ("2.0", "2.2")]
+        cfgs += [{"version": v, "nodes": [1, 2], "switch": ["2.1.1", "2.2.0", "2.0.0", "2.0.1"]} for v in ("2.0", "2.1")]
     res = bfs.search(ctx, MOD, cfgs, max_depth=60)
     cov = {
         "states": res["states"],
